@@ -652,4 +652,669 @@ theorem spelling_lt (addr : Str) (n : Nat) (h : IP.IsV6Spelling addr n) : n < 2 
     have e : (0 + 1) * 65536 ^ 8 = 2 ^ 128 := by decide
     omega
 
+/-! ### completeness: every RFC 4291 spelling is read by the stdlib parser model -/
+
+theorem v6Core_shape (f l : Str) (A B : List Str) (ghi glo : List Nat)
+    (hA : ∀ p ∈ A, p ≠ []) (hB : ∀ p ∈ B, p ≠ []) (hf : f = [] → A = []) (hl : l = [] → B = [])
+    (h1 : IP.Hextets (if f = [] then [] else f :: A) ghi) (h2 : IP.Hextets (if l = [] then [] else B ++ [l]) glo)
+    (h7 : ghi.length + glo.length ≤ 7) :
+    v6Core f (A ++ [] :: B) l =
+      some (IP.groupsVal (ghi ++ List.replicate (8 - (ghi.length + glo.length)) 0 ++ glo)) := by
+  have e1 := hextets_length _ _ h1
+  have e2 := hextets_length _ _ h2
+  unfold v6Core
+  have hlen : (A ++ [] :: B).length + 2 = A.length + B.length + 3 := by simp; omega
+  have ea : (f = [] ∧ A.length = 0 ∧ ghi.length = 0) ∨ (f ≠ [] ∧ ghi.length = A.length + 1) := by
+    by_cases hf' : f = []
+    · left; refine ⟨hf', by rw [hf hf']; rfl, ?_⟩; rw [← e1]; simp [hf']
+    · right; refine ⟨hf', ?_⟩; rw [← e1]; simp [hf']
+  have eb : (l = [] ∧ B.length = 0 ∧ glo.length = 0) ∨ (l ≠ [] ∧ glo.length = B.length + 1) := by
+    by_cases hl' : l = []
+    · left; refine ⟨hl', by rw [hl hl']; rfl, ?_⟩; rw [← e2]; simp [hl']
+    · right; refine ⟨hl', ?_⟩; rw [← e2]; simp [hl']
+  have hl9 : ¬ (A.length + B.length + 3 > 9) := by
+    rcases ea with ⟨_, a1, a2⟩ | ⟨_, a1⟩ <;> rcases eb with ⟨_, b1, b2⟩ | ⟨_, b1⟩ <;> omega
+  rw [hlen, if_neg hl9, emptyIdx_shape 1 A B hA hB]
+  simp only
+  have c1 : ¬ (f = [] ∧ 1 + A.length - 1 ≠ 0) := by
+    rintro ⟨hf', hne⟩; rw [hf hf'] at hne; simp at hne
+  have c2 : ¬ (l = [] ∧ A.length + B.length + 3 - (1 + A.length) - 1 - 1 ≠ 0) := by
+    rintro ⟨hl', hne⟩; rw [hl hl'] at hne; simp at hne; omega
+  have hhi : (if f = [] then 1 + A.length - 1 else 1 + A.length) = ghi.length := by
+    rcases ea with ⟨a0, a1, a2⟩ | ⟨a0, a1⟩
+    · rw [if_pos a0]; omega
+    · rw [if_neg a0]; omega
+  have hlo : (if l = [] then A.length + B.length + 3 - (1 + A.length) - 1 - 1
+      else A.length + B.length + 3 - (1 + A.length) - 1) = glo.length := by
+    rcases eb with ⟨b0, b1, b2⟩ | ⟨b0, b1⟩
+    · rw [if_pos b0]; omega
+    · rw [if_neg b0]; omega
+  rw [if_neg c1, if_neg c2, hhi, hlo]
+  have c3 : ¬ (8 - (ghi.length + glo.length) < 1) := by omega
+  rw [if_neg c3]
+  have htake : (f :: (A ++ [] :: B ++ [l])).take ghi.length = (if f = [] then [] else f :: A) := by
+    rw [← e1]
+    by_cases hf' : f = []
+    · simp [hf']
+    · simp only [hf', if_false, List.length_cons]
+      rw [List.take_succ_cons]
+      simp [List.take_append]
+  have hdrop : (f :: (A ++ [] :: B ++ [l])).drop (A.length + B.length + 3 - glo.length) =
+      (if l = [] then [] else B ++ [l]) := by
+    rw [← e2]
+    by_cases hl' : l = []
+    · have hb := hl hl'
+      subst hb
+      simp only [hl', if_true, List.length_nil, Nat.add_zero, Nat.sub_zero]
+      rw [show A.length + 3 = (A.length + 2) + 1 by omega, List.drop_succ_cons]
+      rw [List.drop_eq_nil_of_le]; simp
+    · simp only [hl', if_false, List.length_append, List.length_cons, List.length_nil]
+      rw [show A.length + B.length + 3 - (B.length + (0 + 1)) = (A.length + 1) + 1 by omega, List.drop_succ_cons]
+      rw [show A ++ [] :: B ++ [l] = A ++ ([] :: (B ++ [l])) by simp, List.drop_append]
+      simp
+  rw [htake, hdrop]
+  rw [(accHextets_iff _ 0 (foldG 0 ghi)).mpr ⟨ghi, h1, rfl⟩]
+  simp only
+  rw [shl16, (accHextets_iff _ _ _).mpr ⟨glo, h2, rfl⟩]
+  rw [groupsVal_eq, foldG_append, foldG_append, foldG_zeros]
+
+
+theorem v6FromParts_shape (hi lo : List Str) (ghi glo : List Nat) (h1 : IP.Hextets hi ghi) (h2 : IP.Hextets lo glo)
+    (h7 : ghi.length + glo.length ≤ 7) :
+    v6FromParts (shape hi lo) =
+      some (IP.groupsVal (ghi ++ List.replicate (8 - (ghi.length + glo.length)) 0 ++ glo)) := by
+  have n1 := hextets_ne_nil hi ghi h1
+  have n2 := hextets_ne_nil lo glo h2
+  -- write shape hi lo as f :: (A ++ [] :: B) ++ [l]
+  rcases snoc_cases lo with rfl | ⟨B, l, rfl⟩
+  · cases hi with
+    | nil =>
+      have := v6Core_shape [] [] [] [] ghi glo (by simp) (by simp) (fun _ => rfl) (fun _ => rfl)
+        (by simpa using h1) (by simpa using h2) h7
+      rw [← v6FromParts_eq] at this
+      simpa [shape] using this
+    | cons f A =>
+      have hf : f ≠ [] := n1 f (by simp)
+      have := v6Core_shape f [] A [] ghi glo (fun p hp => n1 p (by simp [hp])) (by simp)
+        (fun e => absurd e hf) (fun _ => rfl) (by simpa [hf] using h1) (by simpa using h2) h7
+      rw [← v6FromParts_eq] at this
+      simpa [shape] using this
+  · have hl : l ≠ [] := n2 l (by simp)
+    have hB : ∀ p ∈ B, p ≠ [] := fun p hp => n2 p (by simp [hp])
+    cases hi with
+    | nil =>
+      have := v6Core_shape [] l [] B ghi glo (by simp) hB (fun _ => rfl) (fun e => absurd e hl)
+        (by simpa using h1) (by simpa [hl] using h2) h7
+      rw [← v6FromParts_eq] at this
+      simpa [shape] using this
+    | cons f A =>
+      have hf : f ≠ [] := n1 f (by simp)
+      have := v6Core_shape f l A B ghi glo (fun p hp => n1 p (by simp [hp])) hB
+        (fun e => absurd e hf) (fun e => absurd e hl) (by simpa [hf] using h1) (by simpa [hl] using h2) h7
+      rw [← v6FromParts_eq] at this
+      simpa [shape] using this
+
+theorem v6FromParts_full (fs : List Str) (gs : List Nat) (h : IP.Hextets fs gs) (h8 : gs.length = 8) :
+    v6FromParts fs = some (IP.groupsVal gs) := by
+  have hlen := hextets_length fs gs h
+  have hne := hextets_ne_nil fs gs h
+  obtain ⟨f, inner, l, rfl⟩ := parts_decomp fs (by omega)
+  rw [v6FromParts_eq]
+  unfold v6Core
+  have hl : inner.length + 2 = 8 := by simp at hlen; omega
+  have hin : emptyIdx 1 inner = [] := (emptyIdx_nil_iff 1 inner).mpr (fun p hp => hne p (by simp [hp]))
+  have hf : f ≠ [] := hne f (by simp)
+  have hll : l ≠ [] := hne l (by simp)
+  rw [hin]
+  simp only [hl, Nat.reduceGT, if_false, ne_eq, not_true_eq_false, hf, hll]
+  exact (accHextets_iff _ 0 _).mpr ⟨gs, h, rfl⟩
+
+
+theorem stdV6Int_join (D : List Str) (z : Str) (hlen : 2 ≤ D.length)
+    (hD : ∀ p ∈ D, ∀ c ∈ p, c ≠ ':') (hz : ∀ c ∈ z, c ≠ ':') :
+    stdV6Int (join [':'] (D ++ [z])) =
+      if z.contains '.' then
+        match stdV4Int z with
+        | none => none
+        | some v => v6FromParts (D ++ [toHex ((v >>> 16) &&& 0xFFFF), toHex (v &&& 0xFFFF)])
+      else v6FromParts (D ++ [z]) := by
+  unfold stdV6Int
+  have hj : join [':'] (D ++ [z]) ≠ [] := by
+    match D, hlen with
+    | a :: b :: rest, _ => simp only [List.cons_append]; exact join_ne_nil a b _
+  have hsp : splitOn ':' (join [':'] (D ++ [z])) = D ++ [z] := by
+    apply splitOn_join
+    · simp
+    · intro w hw
+      rcases List.mem_append.mp hw with hw | hw
+      · exact hD w hw
+      · simp at hw; subst hw; exact hz
+  have hl3 : ¬ (D ++ [z]).length < 3 := by simp; omega
+  rw [if_neg hj, hsp]
+  simp only [hl3, if_false, List.getLast?_concat, Option.getD_some, List.dropLast_concat]
+  rfl
+
+theorem isHextet_chars (s : Str) (g : Nat) (h : IP.IsHextet s g) :
+    isH s = true ∧ ∀ c ∈ s, isHexDigit c = true ∧ c ≠ ':' ∧ c ≠ '.' ∧ c ≠ '/' ∧ isSpace c = false := by
+  have hall := (hexNumFrom_all s 0 g h.2.2).1
+  refine ⟨?_, ?_⟩
+  · unfold isH
+    have : s.all isHexDigit = true := List.all_eq_true.mpr hall
+    rw [this]; simp [h.1, h.2.1]
+  · intro c hc
+    have hh := hall c hc
+    have := isSpace_hexColon c (Or.inl hh)
+    refine ⟨hh, ?_, ?_, this.2, this.1⟩
+    · rintro rfl; revert hh; decide
+    · rintro rfl; revert hh; decide
+
+theorem hextets_chars (fs : List Str) (gs : List Nat) (h : IP.Hextets fs gs) :
+    ∀ p ∈ fs, isH p = true ∧ ∀ c ∈ p, isHexDigit c = true ∧ c ≠ ':' ∧ c ≠ '.' ∧ c ≠ '/' ∧ isSpace c = false := by
+  induction fs generalizing gs with
+  | nil => intro p hp; simp at hp
+  | cons f fs ih => cases gs with
+    | nil => exact absurd h (by simp [IP.Hextets])
+    | cons g gs =>
+      intro p hp
+      rcases List.mem_cons.mp hp with rfl | hp
+      · exact isHextet_chars _ g h.1
+      · exact ih gs h.2 p hp
+
+theorem contains_dot_false (s : Str) (h : ∀ c ∈ s, c ≠ '.') : s.contains '.' = false := contains_false s '.' h
+
+theorem isHextet_toHex' (k : Nat) (hk : k < 65536) : IP.IsHextet (toHex k) k :=
+  (parseHextet_iff _ _).mp (parseHextet_toHex k hk)
+
+theorem shape_snoc (hi L : List Str) (z : Str) :
+    shape hi (L ++ [z]) = ((if hi = [] then [[]] else hi) ++ [] :: L) ++ [z] := by
+  unfold shape; simp
+
+theorem shape_nil_lo (hi : List Str) : shape hi [] = ((if hi = [] then [[]] else hi) ++ [[]]) ++ [[]] := by
+  unfold shape; simp
+
+/-- the values of the two groups a dotted quad stands for, as the parser rewrites them -/
+theorem quad_hextets (v : Nat) (hv : v < 4294967296) :
+    IP.Hextets [toHex ((v >>> 16) &&& 0xFFFF), toHex (v &&& 0xFFFF)] [v / 65536, v % 65536] := by
+  have hq := quad_groups v hv
+  rw [hq.1, hq.2.1]
+  exact ⟨isHextet_toHex' _ hq.2.2.1, isHextet_toHex' _ hq.2.2.2, trivial⟩
+
+theorem dotted_props (v : Nat) : (∀ c ∈ IP.dotted v, c ≠ ':') ∧ (IP.dotted v).contains '.' = true := by
+  rw [← strV4_dotted]
+  refine ⟨strV4_ne v ':' (by decide) (by decide), ?_⟩
+  rw [List.contains_iff_mem]; exact dot_mem_strV4 v
+
+theorem shapeD_len (hi L : List Str) : 2 ≤ ((if hi = [] then [[]] else hi) ++ [] :: L).length := by
+  by_cases hh : hi = []
+  · simp [hh]
+  · cases hi with
+    | nil => exact absurd rfl hh
+    | cons a as => simp; omega
+
+theorem stdV6Int_complete (addr : Str) (n : Nat) (h : IP.IsV6Spelling addr n) : stdV6Int addr = some n := by
+  rcases h with ⟨fs, gs, hf, h8, rfl, rfl⟩ | ⟨hi, lo, ghi, glo, h1, h2, h7, rfl, rfl⟩
+  · rcases hf with hf | ⟨fs', gs', v, hv, hf, rfl, rfl⟩
+    · -- eight hextets
+      have hlen := hextets_length fs gs hf
+      have hch := hextets_chars fs gs hf
+      rcases snoc_cases fs with rfl | ⟨D, z, rfl⟩
+      · simp at hlen; omega
+      · rw [stdV6Int_join D z (by simp at hlen; omega) (fun p hp c hc => ((hch p (by simp [hp])).2 c hc).2.1)
+          (fun c hc => ((hch z (by simp)).2 c hc).2.1)]
+        rw [contains_dot_false z (fun c hc => ((hch z (by simp)).2 c hc).2.2.1)]
+        simp only [Bool.false_eq_true, if_false]
+        exact v6FromParts_full _ gs hf h8
+    · -- six hextets and a dotted quad
+      have hlen := hextets_length fs' gs' hf
+      have hch := hextets_chars fs' gs' hf
+      have hd := dotted_props v
+      simp only [List.length_append, List.length_cons, List.length_nil] at h8
+      rw [stdV6Int_join fs' _ (by omega) (fun p hp c hc => ((hch p hp).2 c hc).2.1) hd.1, hd.2]
+      simp only [if_true]
+      rw [← strV4_dotted, stdV4Int_strV4 v (by omega)]
+      simp only
+      exact v6FromParts_full _ _ (hextets_append _ _ _ _ hf (quad_hextets v (by omega))) (by simp; omega)
+  · have hch1 := hextets_chars hi ghi h1
+    have hH : ∀ p ∈ (if hi = [] then [[]] else hi), ∀ c ∈ p, c ≠ ':' := by
+      intro p hp c hc
+      by_cases hh : hi = []
+      · simp [hh] at hp; subst hp; simp at hc
+      · simp only [hh, if_false] at hp; exact ((hch1 p hp).2 c hc).2.1
+    rw [← join_shape]
+    rcases h2 with h2 | ⟨lo', gs', v, hv, h2, rfl, rfl⟩
+    · have hch2 := hextets_chars lo glo h2
+      rcases snoc_cases lo with rfl | ⟨B, l, rfl⟩
+      · rw [shape_nil_lo, stdV6Int_join _ [] (shapeD_len hi _)
+          (by
+            intro p hp c hc
+            rcases List.mem_append.mp hp with hp | hp
+            · exact hH p hp c hc
+            · simp at hp; subst hp; simp at hc)
+          (by simp)]
+        simp only [List.contains_nil, Bool.false_eq_true, if_false]
+        rw [← shape_nil_lo]
+        exact v6FromParts_shape hi [] ghi glo h1 h2 h7
+      · rw [shape_snoc, stdV6Int_join _ l (shapeD_len hi _)
+          (by
+            intro p hp c hc
+            rcases List.mem_append.mp hp with hp | hp
+            · exact hH p hp c hc
+            · rcases List.mem_cons.mp hp with rfl | hp
+              · simp at hc
+              · exact ((hch2 p (by simp [hp])).2 c hc).2.1)
+          (fun c hc => ((hch2 l (by simp)).2 c hc).2.1)]
+        rw [contains_dot_false l (fun c hc => ((hch2 l (by simp)).2 c hc).2.2.1)]
+        simp only [Bool.false_eq_true, if_false]
+        rw [← shape_snoc]
+        exact v6FromParts_shape hi _ ghi glo h1 h2 h7
+    · have hch2 := hextets_chars lo' gs' h2
+      have hd := dotted_props v
+      rw [shape_snoc, stdV6Int_join _ _ (shapeD_len hi _)
+        (by
+          intro p hp c hc
+          rcases List.mem_append.mp hp with hp | hp
+          · exact hH p hp c hc
+          · rcases List.mem_cons.mp hp with rfl | hp
+            · simp at hc
+            · exact ((hch2 p hp).2 c hc).2.1)
+        hd.1, hd.2]
+      simp only [if_true]
+      rw [← strV4_dotted, stdV4Int_strV4 v (by omega)]
+      simp only
+      have e : ((if hi = [] then [[]] else hi) ++ [] :: lo') ++
+          [toHex ((v >>> 16) &&& 0xFFFF), toHex (v &&& 0xFFFF)] =
+          shape hi (lo' ++ [toHex ((v >>> 16) &&& 0xFFFF), toHex (v &&& 0xFFFF)]) := by
+        unfold shape; simp
+      rw [e]
+      exact v6FromParts_shape hi _ ghi _ h1 (hextets_append _ _ _ _ h2 (quad_hextets v (by omega))) h7
+
+
+/-! ### the regex automaton accepts every spelling -/
+
+theorem takeWhile_appendS {p : Str → Bool} (l r : List Str) (hl : ∀ c ∈ l, p c = true)
+    (hr : ∀ c, r.head? = some c → p c = false) : (l ++ r).takeWhile p = l ∧ (l ++ r).dropWhile p = r := by
+  induction l with
+  | nil =>
+    cases r with
+    | nil => simp
+    | cons c cs => simp [hr c rfl]
+  | cons a as ih =>
+    have := ih (fun c hc => hl c (by simp [hc]))
+    simp [hl a (by simp), this]
+
+theorem hexFormParts_full (fs : List Str) (h : ∀ p ∈ fs, isH p = true) (h8 : fs.length = 8) :
+    hexFormParts fs = true := by
+  have hne : ∀ p ∈ fs, p ≠ [] := fun p hp e => by have := h p hp; rw [e, isH_nil] at this; cases this
+  unfold hexFormParts
+  split
+  · exact absurd rfl (hne [] (by simp))
+  · exact absurd rfl (hne [] (by simp))
+  · have : fs.all isH = true := List.all_eq_true.mpr h
+    simp [this, h8]
+
+theorem hexFormParts_shape (hi lo : List Str) (h1 : ∀ p ∈ hi, isH p = true) (h2 : ∀ p ∈ lo, isH p = true)
+    (h7 : hi.length + lo.length ≤ 7) : hexFormParts (shape hi lo) = true := by
+  have ne1 : ∀ p ∈ hi, p ≠ [] := fun p hp e => by have := h1 p hp; rw [e, isH_nil] at this; cases this
+  have ne2 : ∀ p ∈ lo, p ≠ [] := fun p hp e => by have := h2 p hp; rw [e, isH_nil] at this; cases this
+  unfold shape
+  cases hi with
+  | nil =>
+    cases lo with
+    | nil => rfl
+    | cons x xs =>
+      have hx : x ≠ [] := ne2 x (by simp)
+      cases x with
+      | nil => exact absurd rfl hx
+      | cons c t =>
+        have hall : ((c :: t) :: xs).all isH = true := List.all_eq_true.mpr h2
+        simp only [List.length_cons] at h7
+        simp [hexFormParts, hall]; omega
+  | cons f A =>
+    have hf : f ≠ [] := ne1 f (by simp)
+    cases f with
+    | nil => exact absurd rfl hf
+    | cons c t =>
+      have hne : ((c :: t) :: A) ≠ [] := by simp
+      rw [if_neg hne]
+      unfold hexFormParts
+      split
+      · rename_i heq; simp at heq
+      · rename_i rest heq; simp at heq
+      · have hnall : (((c :: t) :: A) ++ [] :: (if lo = [] then [[]] else lo)).all isH = false := by
+          rw [Bool.eq_false_iff]; intro hh
+          have := List.all_eq_true.mp hh [] (by simp)
+          rw [isH_nil] at this; cases this
+        have htw := takeWhile_appendS (p := isH) ((c :: t) :: A) ([] :: (if lo = [] then [[]] else lo)) h1
+          (fun x hx => by simp at hx; subst hx; exact isH_nil)
+        simp only [hnall, Bool.false_eq_true, if_false, htw.1, htw.2]
+        simp only [List.length_cons] at h7
+        by_cases hl : lo = []
+        · subst hl; simp; omega
+        · have hl2 : lo ≠ [[]] := by
+            intro e; rw [e] at ne2; exact ne2 [] (by simp) rfl
+          have hall : lo.all isH = true := List.all_eq_true.mpr h2
+          have hpos : 1 ≤ lo.length := by cases lo with
+            | nil => exact absurd rfl hl
+            | cons _ _ => simp
+          simp [hl, hl2, hall]; omega
+
+
+theorem matchEmbedded_of (pre q : Str) (hpre : pre ≠ []) (hch : ∀ c ∈ pre, isHexColon c = true)
+    (hq : fullQuad q = true) (hqne : q ≠ []) : matchEmbedded (pre ++ q) = true := by
+  unfold matchEmbedded
+  rw [List.any_eq_true]
+  refine ⟨pre.length, ?_, ?_⟩
+  · rw [List.mem_range, List.length_append]
+    have : 0 < q.length := List.length_pos_iff.mpr hqne
+    omega
+  · have h1 : 1 ≤ pre.length := List.length_pos_iff.mpr hpre
+    have h2 : (pre ++ q).take pre.length = pre := by simp
+    have h3 : (pre ++ q).drop pre.length = q := by simp
+    rw [h2, h3, hq]
+    have : pre.all isHexColon = true := List.all_eq_true.mpr hch
+    simp [h1, this]
+
+/-- per-part facts of a field list -/
+theorem fields_parts (fs : List Str) (gs : List Nat) (h : IP.Fields fs gs) :
+    ∀ p ∈ fs, p ≠ [] ∧ ∀ c ∈ p, c ≠ ':' ∧ c ≠ '/' ∧ isSpace c = false := by
+  have hx : ∀ fs gs, IP.Hextets fs gs → ∀ p ∈ fs, p ≠ [] ∧ ∀ c ∈ p, c ≠ ':' ∧ c ≠ '/' ∧ isSpace c = false := by
+    intro fs gs h p hp
+    have := hextets_chars fs gs h p hp
+    exact ⟨hextets_ne_nil fs gs h p hp, fun c hc => ⟨(this.2 c hc).2.1, (this.2 c hc).2.2.2.1, (this.2 c hc).2.2.2.2⟩⟩
+  rcases h with h | ⟨fs', gs', v, hv, h, rfl, rfl⟩
+  · exact hx fs gs h
+  · intro p hp
+    rcases List.mem_append.mp hp with hp | hp
+    · exact hx fs' gs' h p hp
+    · simp at hp; subst hp
+      rw [← strV4_dotted]
+      refine ⟨strV4_ne_nil v, fun c hc => ⟨strV4_ne v ':' (by decide) (by decide) c hc,
+        strV4_ne v '/' (by decide) (by decide) c hc, strV4_noSpace v c hc⟩⟩
+
+theorem join_chars (ws : List Str) (hw : ∀ p ∈ ws, ∀ c ∈ p, c ≠ '/' ∧ isSpace c = false) :
+    ∀ c ∈ join [':'] ws, c ≠ '/' ∧ isSpace c = false := by
+  intro c hc
+  rcases mem_join ':' ws c hc with rfl | ⟨w, hw', h⟩
+  · exact ⟨by decide, by decide⟩
+  · exact hw w hw' c h
+
+theorem join_head (c : Char) (t : Str) (xs : List Str) : ∃ t', join [':'] ((c :: t) :: xs) = c :: t' := by
+  cases xs with
+  | nil => exact ⟨t, rfl⟩
+  | cons y ys => exact ⟨t ++ ':' :: join [':'] (y :: ys), by simp [join]⟩
+
+/-- a non-empty list of non-empty colon-free parts joins to a text starting with a non-colon -/
+theorem join_head_ne (ws : List Str) (hne : ws ≠ []) (hw : ∀ p ∈ ws, p ≠ [] ∧ ∀ c ∈ p, c ≠ ':') :
+    ∃ c t, join [':'] ws = c :: t ∧ c ≠ ':' := by
+  cases ws with
+  | nil => exact absurd rfl hne
+  | cons x xs =>
+    have hx := hw x (by simp)
+    cases x with
+    | nil => exact absurd rfl hx.1
+    | cons c t =>
+      obtain ⟨t', e⟩ := join_head c t xs
+      exact ⟨c, t', e, hx.2 c (by simp)⟩
+
+theorem hextets_join_hexColon (fs : List Str) (gs : List Nat) (h : IP.Hextets fs gs) :
+    ∀ c ∈ join [':'] fs, isHexColon c = true := by
+  intro c hc
+  unfold isHexColon
+  rcases mem_join ':' fs c hc with rfl | ⟨w, hw, hcw⟩
+  · decide
+  · have := ((hextets_chars fs gs h w hw).2 c hcw).1
+    simp [this]
+
+
+theorem fullQuad_dotted (v : Nat) : fullQuad (IP.dotted v) = true ∧ IP.dotted v ≠ [] := by
+  rw [← strV4_dotted]; exact ⟨fullQuad_strV4 v, strV4_ne_nil v⟩
+
+/-- what the regex needs to know about a spelling -/
+theorem spelling_facts (addr : Str) (n : Nat) (h : IP.IsV6Spelling addr n) :
+    (∀ c ∈ addr, c ≠ '/' ∧ isSpace c = false) ∧ NoTripleHead addr ∧
+    (matchHexForm addr || matchEmbedded addr) = true := by
+  rcases h with ⟨fs, gs, hf, h8, rfl, _⟩ | ⟨hi, lo, ghi, glo, h1, h2, h7, rfl, _⟩
+  · have hp := fields_parts fs gs hf
+    have hfne : fs ≠ [] := by
+      rcases hf with hf | ⟨fs', gs', v, _, hf, rfl, rfl⟩
+      · intro e; subst e
+        cases gs with
+        | nil => simp at h8
+        | cons _ _ => exact absurd hf (by simp [IP.Hextets])
+      · simp
+    refine ⟨join_chars fs (fun p hp' c hc => ((hp p hp').2 c hc).2), ?_, ?_⟩
+    · obtain ⟨c, t, e, hc⟩ := join_head_ne fs hfne (fun p hp' => ⟨(hp p hp').1, fun c hc => ((hp p hp').2 c hc).1⟩)
+      exact Or.inl ⟨c, t, e, hc⟩
+    · rcases hf with hf | ⟨fs', gs', v, hv, hf, rfl, rfl⟩
+      · have : matchHexForm (join [':'] fs) = true := by
+          unfold matchHexForm
+          rw [splitOn_join ':' fs hfne (fun p hp' c hc => ((hp p hp').2 c hc).1)]
+          exact hexFormParts_full fs (fun p hp' => (hextets_chars fs gs hf p hp').1)
+            (by rw [hextets_length fs gs hf]; exact h8)
+        simp [this]
+      · have hlen := hextets_length fs' gs' hf
+        simp only [List.length_append, List.length_cons, List.length_nil] at h8
+        have hne' : fs' ≠ [] := by intro e; rw [e] at hlen; simp at hlen; omega
+        have hq := fullQuad_dotted v
+        have : matchEmbedded (join [':'] (fs' ++ [IP.dotted v])) = true := by
+          rw [join_append2 [':'] fs' [IP.dotted v] hne' (by simp)]
+          simp only [join]
+          apply matchEmbedded_of _ _ (by simp) _ hq.1 hq.2
+          intro c hc
+          rcases List.mem_append.mp hc with hc | hc
+          · exact hextets_join_hexColon fs' gs' hf c hc
+          · simp at hc; subst hc; decide
+        simp [this]
+  · have hp1 := hextets_chars hi ghi h1
+    have hn1 := hextets_ne_nil hi ghi h1
+    have hp2 := fields_parts lo glo h2
+    have hc1 := join_chars hi (fun p hp' c hc => ⟨((hp1 p hp').2 c hc).2.2.2.1, ((hp1 p hp').2 c hc).2.2.2.2⟩)
+    have hc2 := join_chars lo (fun p hp' c hc => ((hp2 p hp').2 c hc).2)
+    refine ⟨?_, ?_, ?_⟩
+    · intro c hc
+      simp only [List.mem_append, List.mem_cons] at hc
+      rcases hc with hc | rfl | rfl | hc
+      · exact hc1 c hc
+      · exact ⟨by decide, by decide⟩
+      · exact ⟨by decide, by decide⟩
+      · exact hc2 c hc
+    · by_cases hh : hi = []
+      · subst hh
+        by_cases hl : lo = []
+        · subst hl; exact Or.inr (Or.inr rfl)
+        · obtain ⟨c, t, e, hc⟩ := join_head_ne lo hl (fun p hp' => ⟨(hp2 p hp').1, fun c hc => ((hp2 p hp').2 c hc).1⟩)
+          exact Or.inr (Or.inl ⟨c, t, by simp [join, e], hc⟩)
+      · obtain ⟨c, t, e, hc⟩ := join_head_ne hi hh (fun p hp' => ⟨hn1 p hp', fun c hc => ((hp1 p hp').2 c hc).2.1⟩)
+        exact Or.inl ⟨c, _, by rw [e]; rfl, hc⟩
+    · rcases h2 with h2 | ⟨lo', gs', v, hv, h2, rfl, rfl⟩
+      · have : matchHexForm (join [':'] hi ++ ':' :: ':' :: join [':'] lo) = true := by
+          unfold matchHexForm
+          rw [← join_shape, splitOn_join ':' (shape hi lo) (by unfold shape; simp)]
+          · exact hexFormParts_shape hi lo (fun p hp' => (hp1 p hp').1)
+              (fun p hp' => (hextets_chars lo glo h2 p hp').1)
+              (by rw [hextets_length hi ghi h1, hextets_length lo glo h2]; exact h7)
+          · intro w hw c hc
+            unfold shape at hw
+            simp only [List.mem_append, List.mem_cons] at hw
+            rcases hw with hw | rfl | hw
+            · by_cases hh : hi = []
+              · simp [hh] at hw; subst hw; simp at hc
+              · simp only [hh, if_false] at hw; exact ((hp1 w hw).2 c hc).2.1
+            · simp at hc
+            · by_cases hl : lo = []
+              · simp [hl] at hw; subst hw; simp at hc
+              · simp only [hl, if_false] at hw; exact ((hp2 w hw).2 c hc).1
+        simp [this]
+      · have hq := fullQuad_dotted v
+        have : matchEmbedded (join [':'] hi ++ ':' :: ':' :: join [':'] (lo' ++ [IP.dotted v])) = true := by
+          have hhc := hextets_join_hexColon hi ghi h1
+          by_cases hl : lo' = []
+          · subst hl
+            simp only [List.nil_append, join]
+            rw [show join [':'] hi ++ ':' :: ':' :: IP.dotted v = (join [':'] hi ++ [':', ':']) ++ IP.dotted v by simp]
+            apply matchEmbedded_of _ _ (by simp) _ hq.1 hq.2
+            intro c hc
+            rcases List.mem_append.mp hc with hc | hc
+            · exact hhc c hc
+            · simp at hc; rcases hc with rfl | rfl <;> decide
+          · rw [join_append2 [':'] lo' [IP.dotted v] hl (by simp)]
+            simp only [join]
+            rw [show join [':'] hi ++ ':' :: ':' :: (join [':'] lo' ++ [':'] ++ IP.dotted v) =
+              (join [':'] hi ++ ':' :: ':' :: (join [':'] lo' ++ [':'])) ++ IP.dotted v by simp]
+            apply matchEmbedded_of _ _ (by simp) _ hq.1 hq.2
+            intro c hc
+            simp only [List.mem_append, List.mem_cons, List.not_mem_nil, or_false] at hc
+            rcases hc with hc | rfl | rfl | hc | rfl
+            · exact hhc c hc
+            · decide
+            · decide
+            · exact hextets_join_hexColon lo' gs' h2 c hc
+            · decide
+        simp [this]
+
+
+theorem isHex_of_isDigit (c : Char) (h : isDigit c = true) : isHexDigit c = true := by
+  unfold isHexDigit; simp [h]
+
+theorem fields_addrch (fs : List Str) (gs : List Nat) (h : IP.Fields fs gs) :
+    ∀ p ∈ fs, ∀ c ∈ p, isHexDigit c = true ∨ c = '.' := by
+  rcases h with h | ⟨fs', gs', v, hv, h, rfl, rfl⟩
+  · intro p hp c hc; exact Or.inl ((hextets_chars fs gs h p hp).2 c hc).1
+  · intro p hp c hc
+    rcases List.mem_append.mp hp with hp | hp
+    · exact Or.inl ((hextets_chars fs' gs' h p hp).2 c hc).1
+    · simp at hp; subst hp
+      rw [← strV4_dotted] at hc
+      rcases strV4_chars v c hc with h | h
+      · exact Or.inl (isHex_of_isDigit c h)
+      · exact Or.inr h
+
+theorem spelling_chars (addr : Str) (n : Nat) (h : IP.IsV6Spelling addr n) :
+    ∀ c ∈ addr, isHexDigit c = true ∨ c = ':' ∨ c = '.' := by
+  have key : ∀ fs gs, IP.Fields fs gs → ∀ c ∈ join [':'] fs, isHexDigit c = true ∨ c = ':' ∨ c = '.' := by
+    intro fs gs hf c hc
+    rcases mem_join ':' fs c hc with rfl | ⟨w, hw, hcw⟩
+    · exact Or.inr (Or.inl rfl)
+    · rcases fields_addrch fs gs hf w hw c hcw with h | h
+      · exact Or.inl h
+      · exact Or.inr (Or.inr h)
+  rcases h with ⟨fs, gs, hf, _, rfl, _⟩ | ⟨hi, lo, ghi, glo, h1, h2, _, rfl, _⟩
+  · exact key fs gs hf
+  · intro c hc
+    simp only [List.mem_append, List.mem_cons] at hc
+    rcases hc with hc | rfl | rfl | hc
+    · exact key hi ghi (Or.inl h1) c hc
+    · exact Or.inr (Or.inl rfl)
+    · exact Or.inr (Or.inl rfl)
+    · exact key lo glo h2 c hc
+
+theorem addrch_ne (c x : Char) (h : isHexDigit c = true ∨ c = ':' ∨ c = '.') (hx : isHexDigit x = false)
+    (h1 : x ≠ ':') (h2 : x ≠ '.') : c ≠ x := by
+  rcases h with h | rfl | rfl
+  · rintro rfl; rw [h] at hx; cases hx
+  · exact fun e => h1 e.symm
+  · exact fun e => h2 e.symm
+
+/-- the IPv6 regex on an address text with the three facts, followed by nothing or a separator and ASCII digits -/
+theorem matchV6_gen (a tail : Str) (mask : Option Str)
+    (hch : ∀ c ∈ a, c ≠ '/' ∧ isSpace c = false) (hok : (matchHexForm a || matchEmbedded a) = true)
+    (hhead : NoTripleHead a)
+    (ht : (tail = [] ∧ mask = none) ∨
+      ∃ sep m, tail = sep :: m ∧ mask = some m ∧ (sep = '/' ∨ isSpace sep = true) ∧ m ≠ [] ∧ ∀ c ∈ m, isDigit c = true) :
+    matchV6 (a ++ tail) = some (a, mask) := by
+  unfold matchV6
+  have h3 : tripleColonAhead (a ++ tail) = false := by
+    apply tripleColonAhead_of_head a tail hhead
+    intro c hc
+    rcases ht with ⟨rfl, _⟩ | ⟨sep, m, rfl, _, hsep, _⟩
+    · simp at hc
+    · simp only [List.head?_cons, Option.some.injEq] at hc
+      subst hc
+      rcases hsep with rfl | h
+      · decide
+      · rintro rfl; revert h; decide
+  have htw := takeWhile_append (p := fun c => !(decide (c = '/') || isSpace c)) a tail
+    (fun c hc => by
+      have := hch c hc
+      simp [this.1, this.2])
+    (fun c hc => by
+      rcases ht with ⟨rfl, _⟩ | ⟨sep, m, rfl, _, hsep, _⟩
+      · simp at hc
+      · simp only [List.head?_cons, Option.some.injEq] at hc
+        subst hc
+        rcases hsep with rfl | h
+        · simp
+        · simp [h])
+  simp only [h3, Bool.false_eq_true, if_false, htw.1, htw.2, hok, Bool.not_true]
+  rcases ht with ⟨rfl, rfl⟩ | ⟨sep, m, rfl, rfl, _, hne, hd⟩
+  · rfl
+  · simp only [fullDigits_digits m hne hd, if_true]
+
+/-- `IPv6Obj(text)` for any RFC 4291 spelling of `ip` followed by a slash or blanks and ASCII digits -/
+theorem V6.fromStr_spelling (input addr : Str) (ip len : Nat) (m : Str) (hsp : IP.IsV6Spelling addr ip)
+    (hl : len ≤ 128) (hne : m ≠ []) (hd : ∀ c ∈ m, isDigit c = true) (hv : ofDigits m = some len)
+    (hguard : (addr ++ '/' :: m).length ≤ 49)
+    (hs : strip input = addr ++ '/' :: m ∨
+      ∃ ws, ws ≠ [] ∧ (∀ c ∈ ws, isSpace c = true) ∧ strip input = addr ++ ws ++ m) :
+    V6.fromStr input = .ok (mk6 ip len) := by
+  obtain ⟨hch, hhead, hok⟩ := spelling_facts addr ip hsp
+  have hac := spelling_chars addr ip hsp
+  have hea : ∀ c ∈ addr, isSpace c = false := fun c hc => (hch c hc).2
+  have hmsp : ∀ c ∈ m, isSpace c = false := fun c hc => isSpace_of_isDigit c (hd c hc)
+  have hns : ∀ c ∈ addr ++ '/' :: m, isSpace c = false := by
+    intro c hc
+    simp only [List.mem_append, List.mem_cons] at hc
+    rcases hc with h | h | h
+    · exact hea c h
+    · rw [h]; decide
+    · exact hmsp c h
+  have hsplit : splitWs (strip input) = [addr ++ '/' :: m] ∨ splitWs (strip input) = [addr, m] := by
+    rcases hs with hs | ⟨ws, hw1, hw2, hs⟩
+    · left; rw [hs]; unfold splitWs; exact splitWsAux_noSpace _ hns
+    · right; rw [hs]; exact splitWs_two _ ws m hea hw2 hw1 hmsp
+  have hg : ¬ (addr ++ '/' :: m).length > Gen.ipv6MaxStrLen := by unfold Gen.ipv6MaxStrLen; omega
+  have hstd : stdV6Addr addr = .ok ip := by
+    unfold stdV6Addr
+    rw [contains_false _ '/' (fun c hc => (hch c hc).1),
+      contains_false _ '%' (fun c hc => addrch_ne c '%' (hac c hc) (by decide) (by decide) (by decide))]
+    simp [stdV6Int_complete addr ip hsp]
+  have hnet : stdV6Net false (addr ++ '/' :: m) = .ok (ip &&& ipIntFromPrefix 128 len, len) := by
+    unfold stdV6Net splitOptionalNetmask
+    rw [splitOn_slash _ _ (fun c hc => (hch c hc).1) (fun c hc => ne_of_isDigit c '/' (by decide) (hd c hc))]
+    simp only [bind, Except.bind, hstd, makeNetmask6_digits m len hne hd hv hl]
+    exact finishNet_false 128 ip len
+  have hmatch := matchV6_gen addr ('/' :: m) (some m) hch hok hhead
+    (Or.inr ⟨'/', m, rfl, rfl, Or.inl rfl, hne, hd⟩)
+  unfold V6.fromStr
+  rcases hsplit with h | h <;> rw [h] <;>
+    simp only [if_neg hg, strip_noSpace _ hns, hmatch, bind, Except.bind, hstd, hnet] <;> rfl
+
+/-- the same without a mask: prefix length 128 -/
+theorem V6.fromStr_spelling_plain (input addr : Str) (ip : Nat) (hsp : IP.IsV6Spelling addr ip)
+    (hguard : addr.length ≤ 49) (hs : strip input = addr) : V6.fromStr input = .ok (mk6 ip 128) := by
+  obtain ⟨hch, hhead, hok⟩ := spelling_facts addr ip hsp
+  have hac := spelling_chars addr ip hsp
+  have hea : ∀ c ∈ addr, isSpace c = false := fun c hc => (hch c hc).2
+  have hg : ¬ addr.length > Gen.ipv6MaxStrLen := by unfold Gen.ipv6MaxStrLen; omega
+  have hstd : stdV6Addr addr = .ok ip := by
+    unfold stdV6Addr
+    rw [contains_false _ '/' (fun c hc => (hch c hc).1),
+      contains_false _ '%' (fun c hc => addrch_ne c '%' (hac c hc) (by decide) (by decide) (by decide))]
+    simp [stdV6Int_complete addr ip hsp]
+  have hnet : stdV6Net false (addr ++ "/128".toList) = .ok (ip &&& ipIntFromPrefix 128 128, 128) := by
+    unfold stdV6Net splitOptionalNetmask
+    rw [show addr ++ "/128".toList = addr ++ '/' :: "128".toList from rfl,
+      splitOn_slash _ _ (fun c hc => (hch c hc).1) (by decide)]
+    simp only [bind, Except.bind, hstd]
+    rw [show makeNetmask6 "128".toList = .ok 128 from rfl]
+    exact finishNet_false 128 ip 128
+  have hmatch := matchV6_gen addr [] none hch hok hhead (Or.inl ⟨rfl, rfl⟩)
+  rw [List.append_nil] at hmatch
+  unfold V6.fromStr
+  rw [hs]
+  unfold splitWs
+  rw [splitWsAux_noSpace _ hea]
+  simp only [if_neg hg, strip_noSpace _ hea, hmatch, bind, Except.bind, hstd, hnet]
+  rfl
+
 end Ccp.IPText
